@@ -30,13 +30,14 @@ type c13Accepted struct {
 
 type c13State struct {
 	// answerHeads: per client, the sizes of the heads carried by answers of its successful lookups
-	answerHeads map[int][]int64
-	w           *sw.World
-	res         *core.Result
-	unis        []*sw.Universe
-	k           int64
-	accepted    map[int][]c13Accepted // per client id
-	mask        map[int]int
+	answerHeads  map[int][]int64
+	answerStarts map[int][]int
+	w            *sw.World
+	res          *core.Result
+	unis         []*sw.Universe
+	k            int64
+	accepted     map[int][]c13Accepted // per client id
+	mask         map[int]int
 }
 
 func (st *c13State) lineageOfHead(n int64, h ref.Hash) int {
@@ -440,7 +441,9 @@ func c13Explore(src *choice.Src) *core.Result {
 	}
 	for i, nf := 0, src.Weighted(3, 3, 2); i < nf; i++ {
 		f := &sw.Fault{Client: src.Intn(nclients+1) - 1, Occ: src.Weighted(5, 3, 2, 1), A: src.Raw(), B: src.Raw()}
-		switch src.Weighted(5, 3, 1, 1, 1) {
+		switch src.Weighted(5, 3, 1, 1, 1, 1) {
+		case 5:
+			f.Class, f.Kind = "config:write", "config-write-error"
 		case 0:
 			f.Class, f.Kind = "net:lookup", "equivocate"
 		case 1:
@@ -733,6 +736,10 @@ func c13AfterLookup(st *c13State, res *core.Result, k int64) func(c *sw.ClientIn
 						st.answerHeads = map[int][]int64{}
 					}
 					st.answerHeads[c.ID] = append(st.answerHeads[c.ID], n)
+					if st.answerStarts == nil {
+						st.answerStarts = map[int][]int{}
+					}
+					st.answerStarts[c.ID] = append(st.answerStarts[c.ID], c.LookupStart[c.CurrentTask])
 				}
 			}
 		}
@@ -761,22 +768,34 @@ func (st *c13State) checkStoredAtQuiescence(r *sumRun, m *sw.Machine) {
 	// the property forbids that. When every lookup of a process succeeded, every head it accepted has
 	// gone through a completed write-back, so the configuration must cover it; if it does not, a later
 	// process on this machine can accept the other log (the property's "across restarts").
-	failed := map[int]bool{}
+	// A lookup that fails while the head is being written back may leave the newer head in memory only.
+	// What the property does not allow is that lookups called AFTER that failure succeed under the head
+	// that was never stored (known finding F4): those are judged too, under their own oracle.
+	lastFail := map[int]int{}
 	for _, outs := range r.outcomes {
 		for _, o := range outs {
-			if o.Err != nil {
-				failed[o.Client] = true
+			if o.Err != nil && o.Step > lastFail[o.Client] {
+				lastFail[o.Client] = o.Step
 			}
 		}
 	}
 	for _, c := range st.w.Clients {
-		if c.Machine != m || c.Crashed || len(c.Security) > 0 || failed[c.ID] {
+		if c.Machine != m || c.Crashed || len(c.Security) > 0 {
 			continue
 		}
-		for _, n := range st.answerHeads[c.ID] {
-			if n > stored {
+		for i, n := range st.answerHeads[c.ID] {
+			if n <= stored {
+				continue
+			}
+			lf, hadFailure := lastFail[c.ID]
+			if !hadFailure {
 				st.res.Fail("C13", "accepted-head-is-stored", "a head accepted by a successful lookup never reached the stored configuration",
 					"client %d finished normally; one of its successful lookups carried a head of size %d, but the stored latest head has size %d: a later process would not know about the accepted tree", c.ID, n, stored)
+				return
+			}
+			if i < len(st.answerStarts[c.ID]) && st.answerStarts[c.ID][i] > lf {
+				st.res.Fail("C13", "no-success-under-unstored-head-after-failed-write-back", "after a lookup failed while writing the head back, later lookups of the same process succeed under the head that was never stored",
+					"client %d: a lookup failed at step %d; a lookup called afterwards (step %d) succeeded under a head of size %d; at the end the stored latest head has size %d and nothing retries the write: a later process would not know about the accepted tree", c.ID, lf, st.answerStarts[c.ID][i], n, stored)
 				return
 			}
 		}
